@@ -96,6 +96,9 @@ fn register_into(
                     StaticData::NamingThenProviding => add_static!(SNamingThenProviding),
                     StaticData::GenReadA => add_static!(SGenReadA),
                     StaticData::GenReadC => add_static!(SGenReadC),
+                    StaticData::GenOverWriteC => add_static!(SGenOverWriteC),
+                    StaticData::DerTupleAC => add_static!(SDerTupleAC),
+                    StaticData::DerMacWriteC => add_static!(SDerMacWriteC),
                 }
             }
             Op::Batch(bs) => {
